@@ -286,15 +286,14 @@ int snoopy_configfile_parseValue_output (
     int    outputArgFound = SNOOPY_FALSE;
 
 
-    // Do not assign null to it explicitly, as you get "Explicit null dereference" Coverity error.
-    // If you do not assign it, Coverity complains with "Uninitialized pointer read".
-    char  *saveptr1 = "";
+    char  *colonPtr;
 
     // First clone the config value, as it gets freed by ini parsing library
     confVal = strdup(confValString);
 
     // Check if configured value contains argument(s)
-    if (NULL == strchr(confVal, ':')) {
+    colonPtr = strchr(confVal, ':');
+    if (NULL == colonPtr) {
         outputName = confVal;
         CFG->output_arg          = "";
         CFG->output_arg_malloced = SNOOPY_FALSE;
@@ -302,8 +301,10 @@ int snoopy_configfile_parseValue_output (
     } else {
         // Separate output name from its arguments
         // (arguments may contain further ':' characters, like "file:/var/log/snoopy-%{datetime:%Y-%m-%d}")
-        outputName = strtok_r(confVal, ":", &saveptr1);
-        outputArg  = outputName + strlen(outputName) + 1;
+        // (do not use strtok_r() here, it skips leading ':' characters and returns NULL for ":")
+        *colonPtr  = '\0';
+        outputName = confVal;
+        outputArg  = colonPtr + 1;
         outputArgFound = SNOOPY_TRUE;
     }
 
